@@ -5,6 +5,7 @@ import (
 	"crypto/sha256"
 	"fmt"
 	"io"
+	"os"
 	"os/exec"
 	"strconv"
 	"strings"
@@ -41,6 +42,11 @@ type Solver struct {
 
 func StartSolver(name string, timeoutMs int, seed int) (*Solver, error) {
 	s := &Solver{Name: name, TimeoutMs: timeoutMs, seed: seed}
+	if f := os.Getenv("GOSYMX_SOLVERLOG"); f != "" {
+		if w, err := os.OpenFile(f, os.O_CREATE|os.O_APPEND|os.O_WRONLY, 0o644); err == nil {
+			s.Log = w
+		}
+	}
 	if err := s.start(); err != nil {
 		return nil, err
 	}
